@@ -129,6 +129,17 @@ def jobs(tier, seed):
             js.append({"id": jid, "name": "join_%s" % jt, "family": "join", "prog": prog([inp(ta), inp(tb), nd("Join", [1, 2], jt=jt, hd=[["k", "k"]])]),
                        "owners": ow, "outs": [2, 0], "mode": "Simple", "inputs": [va, vb],
                        "seeds": [seed % 1000 + s for s in range(nseeds)], "junk": junk})
+    # seeded random well-typed programs over the MPC-compilable operations, random owners / output sets / inline modes
+    from . import randprog
+    nrand = 150 if tier == "quick" else 2500
+    for name, p, its in randprog.programs(seed, nrand):
+        ow = [rng.choice([0, 1, 2, 0, 1, 2, "pub", "sh"]) for _ in its]
+        if all(o == "pub" for o in ow):
+            ow[0] = 1
+        outs = rng.choice([[0], [1], [2], [2, 0], [0, 1], [1, 2, 0], []])
+        jid += 1
+        js.append({"id": jid, "name": name, "family": "rand", "prog": p, "owners": ow, "outs": outs, "mode": rng.choice(["Simple", "Default", "Extreme"]),
+                   "inputs": [rand_value(t, rng) for t in its], "seeds": [seed % 1000 + jid % 7], "junk": ["random"]})
     return js
 
 
